@@ -122,15 +122,20 @@ Definition rename_tok (n : str) (t : tok) : tok :=
 Definition rename_head (n : str) (l : list tok) : list tok :=
   match l with t :: rest => rename_tok n t :: rest | [] => [] end.
 
-(* `__init__(self, toklist, name, asList, modal)` running on self = pr_new toklist *)
-Definition pr_init (x : raw) (name : option str) (asList modal_ : bool) : pres :=
+(* `__init__(self, toklist, name, asList, modal)` running on self = pr_new toklist.
+   add_name = true : the repaired tree (notes/C11-fix.diff, F-05): `self._all_names.add(name)` for a non-modal name;
+   add_name = false: the pinned 3.2.4 tree: `self._all_names = {name}` — on an already populated result (x = RPR r) this
+   REPLACES the set, so the list-all names collected from the children are forgotten *)
+Definition pr_init_gen (add_name : bool) (x : raw) (name : option str) (asList modal_ : bool) : pres :=
   let self0 := pr_new x in
   let self1 := PR (toks self0) (dict self0) (allnames self0) (rname self0) modal_ in
   match name with
   | None => self1
   | Some [] => self1                                       (* name == '' *)
   | Some n =>
-    let self2 := PR (toks self1) (dict self1) (if modal_ then allnames self1 else [n]) (Some n) modal_ in
+    let self2 := PR (toks self1) (dict self1)
+                    (if modal_ then allnames self1
+                     else if add_name then names_union (allnames self1) [n] else [n]) (Some n) modal_ in
     if raw_is_null x then self2
     else
       if asList then
@@ -163,6 +168,9 @@ Definition pr_init (x : raw) (name : option str) (asList modal_ : bool) : pres :
                    end
         end
   end.
+
+Definition pr_init := pr_init_gen true.          (* the repaired `__init__` *)
+Definition pr_init_old := pr_init_gen false.     (* the pinned 3.2.4 `__init__` (F-05) *)
 
 (* `__bool__` *)
 Definition pr_bool (r : pres) : bool :=
